@@ -5,11 +5,44 @@ import storefam
 import vlib
 
 PID = "C07"
-FILES = ["theories/Properties/C07.v", "theories/Properties/C07ErrFlow.v", "theories/Examples/C07Examples.v"]
+FILES = ["theories/Properties/C07.v", "theories/Properties/C07Derived.v", "theories/Properties/C07ErrFlow.v",
+         "theories/Examples/C07Examples.v", "theories/Examples/C07Wirings.v"]
 
 
-def compare(a, b):
-    if storefam.proj_results(a) != storefam.proj_results(b):
+def hexs(s):
+    return "".join("%02x" % b for b in s.encode()) or "-"
+
+
+def unhex(h):
+    return "" if h == "-" else bytes.fromhex(h).decode("utf-8", "replace")
+
+
+def tx_vetoes(t):
+    """t = token list of one transaction (without the leading TX) -> [(store, change, id)]"""
+    n = int(t[2])
+    return [(t[3 + 3 * k], t[4 + 3 * k], unhex(t[5 + 3 * k])) for k in range(n)]
+
+
+def veto_mode(t):
+    """(stage, kind) of the pseudo veto @c07v of the transaction, or None: the vetoes are then raised at the given stage
+    (P = entity constraint ProcessPreCommit, IB / IA = index constraint before / after) with an error of the given kind"""
+    for s, _, i in tx_vetoes(t):
+        if s == "@c07v" and ":" in i:
+            return tuple(i.split(":", 1))
+    return None
+
+
+def coarse(results):
+    return tuple("ok" if r == "ok" else "error" for r in results)
+
+
+def compare(a, b, typed=False):
+    ra, rb = storefam.proj_results(a), storefam.proj_results(b)
+    if typed:
+        # the vetoes of this transaction carry an error kind of their own and are raised at another stage than the
+        # model's (which knows one veto stage and one kind): C07 is about error-or-nil, compare that
+        ra, rb = coarse(ra[:-1]) + ra[-1:], coarse(rb[:-1]) + rb[-1:]
+    if ra != rb:
         return "results impl %s vs model %s" % (storefam.proj_results(a), storefam.proj_results(b))
     if a["facts"] != b["facts"]:
         return "state facts differ: only impl %s ; only model %s" % (
@@ -19,15 +52,40 @@ def compare(a, b):
     return None
 
 
+ORACLE_HITS = {}
+
+
 def oracle(sch, txs, io, mo):
+    out = oracle_(sch, txs, io, mo)
+    for k, _, _ in out:
+        ORACLE_HITS[k] = ORACLE_HITS.get(k, 0) + 1
+    return out
+
+
+def oracle_(sch, txs, io, mo):
     out = []
     prev = []
     for k, (t, a) in enumerate(zip(txs, io)):
         precommit_fails = t[1] == "1"
         has_fail_op = "FAIL" in t or "FAILT" in t
+        raised = sorted(x.split(":", 2)[2] for x in a.get("other", ()) if x.startswith("RAISED:persist:"))
+        mode = veto_mode(t)
         if a["vetoed"] and a["commit"]:
-            out.append(("C07:veto-swallowed", "a constraint vetoed a change in ProcessPreCommit, yet every operation returned nil and "
-                        "the transaction committed (results %s)" % a["results"], k))
+            stage = {None: "ProcessPreCommit", "P": "ProcessPreCommit of an entity constraint",
+                     "IB": "an index constraint (ProcessBeforeUpdate / ProcessAfterUpdate of a create / ProcessBeforeDelete)",
+                     "IA": "an index constraint (ProcessAfterUpdate / ProcessBeforeDelete)"}[mode[0] if mode else None]
+            kind = {"err": "a plain error", "notfound": "a RecordNotFoundError", "refexists": "a ReferenceExistsError",
+                    "dup": "a UniqueIndexDuplicateError"}[mode[1] if mode else "err"]
+            out.append(("C07:veto-swallowed", "a constraint vetoed a change with %s in %s (vetoes %s), yet every operation returned nil "
+                        "and the transaction committed (results %s)" % (
+                            kind, stage, [v for v in tx_vetoes(t) if not v[0].startswith("@")], a["results"]), k))
+        elif raised and a["commit"]:
+            out.append(("C07:storage-error-swallowed", "PersistEntity of %s ended with an error latched in the bucket it wrote to (required "
+                        "string, unusable list key or refused tag value), yet every operation returned nil and the transaction "
+                        "committed (results %s)" % ("/".join(raised), a["results"]), k))
+        elif "panic" in a["results"]:
+            out.append(("C07:operation-panicked", "a store operation panicked inside the transaction (results %s); on the pinned tree "
+                        "this only happens after an earlier transaction committed a half-applied change" % a["results"], k))
         elif any(r != "ok" for r in a["results"]) and a["commit"]:
             out.append(("C07:commit-after-error", "an operation returned an error but Db.Update committed", k))
         elif precommit_fails and a["commit"]:
@@ -44,8 +102,252 @@ def oracle(sch, txs, io, mo):
                 out.append(("C07:events-after-rollback", "listeners ran for a rolled-back transaction: %s" % a["events"][:4], k))
         elif all(r == "ok" for r in a["results"]) is False:
             pass
+        if a["commit"]:
+            # a committed state that only a swallowed rejection can produce: a foreign key the schema guards against
+            # dangling (fk index, fk constraint) references an entity that does not exist
+            for prob in storefam.fk_oracle(sch, a["facts"]):
+                if "references missing" in prob:
+                    out.append(("C07:rejected-change-committed", "the transaction committed (results %s) although one of its steps "
+                                "must have been refused - afterwards %s" % (a["results"], prob), k))
+                    break
         prev = a["facts"]
     return out
+
+
+# ------------------------------------------------------------------ shrinking a violating history
+def split_tx(t):
+    """token list of one transaction (without TX) -> (sys, precommit, [veto token triples], [op token lists])"""
+    pos = [2]
+
+    def nxt():
+        x = t[pos[0]]
+        pos[0] += 1
+        return x
+
+    vetoes = [[nxt(), nxt(), nxt()] for _ in range(int(nxt()))]
+
+    def fvsv():
+        for _ in range(int(nxt())):
+            nxt(), nxt()
+        for _ in range(int(nxt())):
+            nxt()
+            for _ in range(int(nxt())):
+                nxt()
+
+    ops = []
+    for _ in range(int(nxt())):
+        start = pos[0]
+        k = nxt()
+        if k == "G":
+            nxt()
+            for _ in range(int(nxt())):
+                nxt(), nxt()
+            k = nxt()
+        if k == "C":
+            nxt(), nxt(), nxt()
+            fvsv()
+        elif k == "UP":
+            nxt(), nxt()
+            fvsv()
+            c = nxt()
+            if c != "-":
+                for _ in range(int(c)):
+                    nxt()
+        elif k in ("D", "FAILT"):
+            nxt(), nxt()
+        elif k == "DW":
+            nxt()
+            if nxt() == "EQ":
+                nxt(), nxt()
+        elif k in ("AL", "RL"):
+            nxt(), nxt(), nxt()
+            for _ in range(int(nxt())):
+                nxt()
+        elif k != "FAIL":
+            raise ValueError("unknown op " + k)
+        ops.append(t[start:pos[0]])
+    return t[0], t[1], vetoes, ops
+
+
+def join_tx(sys_, pcf, vetoes, ops):
+    toks = ["TX", sys_, pcf, str(len(vetoes))]
+    for v in vetoes:
+        toks += v
+    toks.append(str(len(ops)))
+    for o in ops:
+        toks += o
+    return " ".join(toks)
+
+
+class Shrinker:
+    """greedy reduction of a violating history: drop transactions, operations and vetoes while the implementation,
+    re-run on the reduced history, still violates the property with the same key"""
+
+    def __init__(self, c, budget=120):
+        self.c = c
+        self.budget = budget
+        self.harness, _ = vlib.build_harness()
+        self.model = vlib.build_model("Store")
+        self.n = 0
+
+    def keys(self, case):
+        import os
+        self.n += 1
+        d = os.path.join(self.c.work, "shrink")
+        os.makedirs(d, exist_ok=True)
+        rin = os.path.join(d, "in.txt")
+        with open(rin, "w") as f:
+            f.write(case + "\n")
+        rc, out = vlib.run([self.harness, "storec07", "--out", d, "--tmp", d, "--n", "0", "--corpus", rin], timeout=120)
+        if rc != 0:
+            return set(), None
+        cases = vlib.read_lines(os.path.join(d, "cases.txt"))
+        impl = vlib.read_lines(os.path.join(d, "impl.txt"))
+        modl = vlib.run_model(self.model, "store", os.path.join(d, "cases.txt"), os.path.join(d, "model.txt"))
+        sch, txs = storefam.split_case(cases[0])
+        io, mo = storefam.parse_obs(impl[0]), storefam.parse_obs(modl[0])
+        found = oracle(sch, txs, io, mo)
+        return set(k for k, _, _ in found), (cases[0], impl[0], modl[0], found)
+
+    def shrink(self, case, key, k):
+        head = case.split(" TX ")[0]
+        txs = [split_tx(p.split()) for p in case.split(" TX ")[1:]][:k + 1]
+        best = None
+
+        def text(txs):
+            return head + "".join(" " + join_tx(*t) for t in txs)
+
+        def ok(cand):
+            nonlocal best
+            if self.n >= self.budget or not cand:
+                return False
+            ks, res = self.keys(text(cand))
+            if key in ks:
+                best = res
+                return True
+            return False
+
+        if not ok(txs):
+            return None
+        changed = True
+        while changed and self.n < self.budget:
+            changed = False
+            for j in range(len(txs) - 2, -1, -1):           # whole transactions in front of the violating one
+                cand = txs[:j] + txs[j + 1:]
+                if ok(cand):
+                    txs, changed = cand, True
+            for j in range(len(txs)):                       # operations
+                for o in range(len(txs[j][3]) - 1, -1, -1):
+                    s_, p_, v_, ops = txs[j]
+                    if len(ops) == 1:
+                        continue
+                    cand = txs[:j] + [(s_, p_, v_, ops[:o] + ops[o + 1:])] + txs[j + 1:]
+                    if ok(cand):
+                        txs, changed = cand, True
+            for j in range(len(txs)):                       # over-long values that do not matter
+                for o in range(len(txs[j][3])):
+                    for q, tok in enumerate(txs[j][3][o]):
+                        if len(tok) > 200:
+                            s_, p_, v_, ops = txs[j]
+                            op2 = ops[o][:q] + ["7a"] + ops[o][q + 1:]
+                            cand = txs[:j] + [(s_, p_, v_, ops[:o] + [op2] + ops[o + 1:])] + txs[j + 1:]
+                            if ok(cand):
+                                txs, changed = cand, True
+            for j in range(len(txs)):                       # vetoes and pseudo vetoes
+                for o in range(len(txs[j][2]) - 1, -1, -1):
+                    s_, p_, v_, ops = txs[j]
+                    cand = txs[:j] + [(s_, p_, v_[:o] + v_[o + 1:], ops)] + txs[j + 1:]
+                    if ok(cand):
+                        txs, changed = cand, True
+        return best
+
+
+def shrink_violations(c):
+    """rewrite the replay of the first violation of every key with a reduced history"""
+    import os
+    seen = set()
+    sh = None
+    for key, path, no_input in c.violations:
+        if no_input or key in seen:
+            continue
+        seen.add(key)
+        full = os.path.join(vlib.VERIF, path)
+        try:
+            rp = json.load(open(full))
+            if "case" not in rp or "tx" not in rp:
+                continue
+            sh = sh or Shrinker(c)
+            sh.n = 0
+            res = sh.shrink(rp["case"], key, rp["tx"])
+            if not res:
+                continue
+            case, impl, modl, found = res
+            what = [d for k2, d, _ in found if k2 == key][0]
+            tx = [t for k2, _, t in found if k2 == key][0]
+            ntx, nops = case.count(" TX "), sum(len(split_tx(p.split())[3]) for p in case.split(" TX ")[1:])
+            rp.update(case=case, impl=impl, model=modl, tx=tx, what=what, shrunk=dict(transactions=ntx, operations=nops, runs=sh.n,
+                      original_transactions=rp["case"].count(" TX ")))
+            with open(full, "w") as f:
+                json.dump(rp, f, indent=1, sort_keys=True)
+            vlib.log("  minimal replay %s: %d transaction(s), %d operation(s): %s" % (path, ntx, nops, describe(case)))
+        except Exception as e:   # shrinking is a convenience; the unshrunk replay stays valid
+            vlib.log("  (replay %s not reduced: %s)" % (path, e))
+
+
+def describe(case):
+    """short human-readable rendering of a (small) history"""
+    out = []
+    for p in case.split(" TX ")[1:]:
+        s_, p_, vetoes, ops = split_tx(p.split())
+        parts = []
+        for o in ops:
+            g = ""
+            if o[0] == "G":
+                g = "[bad tags] " if o[1] == "1" else ""
+                o = o[3 + 2 * int(o[2]):]
+            if o[0] in ("C", "UP"):
+                vals = []
+                i = 4 if o[0] == "C" else 3
+                nf = int(o[i])
+                i += 1
+                for _ in range(nf):
+                    vals.append("%s=%s" % (o[i], "nil" if o[i + 1] == "N" else short(unhex(o[i + 1]))))
+                    i += 2
+                ns = int(o[i])
+                i += 1
+                for _ in range(ns):
+                    name, kk = o[i], int(o[i + 1])
+                    vals.append("%s=[%s]" % (name, ",".join(short(unhex(x)) for x in o[i + 2:i + 2 + kk])))
+                    i += 2 + kk
+                chk = ""
+                if o[0] == "UP" and o[i] != "-":
+                    chk = " checker{%s}" % ",".join(o[i + 1:i + 1 + int(o[i])])
+                parts.append("%s%s %s/%s {%s}%s" % (g, {"C": "Create", "UP": "Update"}[o[0]], o[1], unhex(o[2]), " ".join(vals), chk))
+            elif o[0] == "D":
+                parts.append("DeleteById %s/%s" % (o[1], unhex(o[2])))
+            elif o[0] == "DW":
+                parts.append("DeleteWhere %s `%s`" % (o[1], "true" if o[2] == "T" else '%s = "%s"' % (o[3], unhex(o[4]))))
+            elif o[0] in ("AL", "RL"):
+                parts.append("%s %s/%s.%s %s" % ({"AL": "AddLinks", "RL": "RemoveLinks"}[o[0]], o[1], unhex(o[2]), o[3],
+                                                 [unhex(x) for x in o[5:]]))
+            elif o[0] == "FAILT":
+                parts.append("Create %s/%s with a refused tag value" % (o[1], unhex(o[2])))
+            else:
+                parts.append("caller error")
+        vt = ["%s/%s/%s" % (a, b, unhex(i)) for a, b, i in vetoes]
+        out.append("Db.Update%s%s%s { %s }" % (" [system ctx]" if s_ == "1" else "", " [failing pre-commit action]" if p_ == "1" else "",
+                                              " vetoes %s" % vt if vt else "", "; ".join(parts)))
+    return " ;; ".join(out)
+
+
+def short(s):
+    return s if len(s) <= 24 else "%s..(%d bytes)" % (s[:6], len(s))
+
+
+def compare_case(sch, txs):
+    def cmp(a, b, k):
+        return compare(a, b, typed=veto_mode(txs[k]) is not None)
+    return cmp
 
 
 def main(argv):
@@ -53,11 +355,19 @@ def main(argv):
     c.assumptions = ["bbolt rollback restores the previous content (trusted; observed by the full traversal after every transaction)",
                      "one MutateContext per transaction (re-using a context across transactions is documented misuse)"]
     proof_ok = c.proof_step(FILES, translators=["errflow"])
-    storefam.run_family(c, "c07", 1500, 20000, compare, oracle,
-                        "seeded histories of 1-7 transactions x 1-4 operations over three schema wirings with injected faults: caller error at a random "
-                        "position (20%), failing pre-commit action (15%), constraint veto on create/update/delete or on the parent/child event (20%), "
-                        "duplicates, missing fk targets, unusable keys (empty set-index value, blank id); after every transaction the bolt file is "
-                        "traversed and compared with the model state, results and delivered events included.")
+    storefam.run_family(c, "c07", 2400, 20000, compare, oracle,
+                        "seeded histories of 1-7 transactions x 1-5 operations (create, update, delete, DeleteWhere with filter true / field = value, "
+                        "link changes) over five schema wirings (C07cr twice in the rotation) (idx, fkc, casc; C07cr = refusing constraints on child stores only, required strings, "
+                        "unindexed string list; C07tree = self-referencing cascade) with injected faults: caller error at a random position, failing "
+                        "pre-commit action, constraint vetoes of four error kinds raised at the pre-commit stage or inside the index constraints of the "
+                        "store / its parent / its children, duplicates, missing fk targets, unusable keys (empty set-index value, blank id, over-long "
+                        "index keys and list elements at the bbolt limit), empty required strings and refused tag values at parent and child level; "
+                        "after every transaction the bolt file is traversed and compared with the model state, results and delivered events included.",
+                        command="storec07", compare_case=compare_case)
+    c.cov["oracle_hits"] = dict(ORACLE_HITS)
+    if c.violations and not c.replay:
+        vlib.log("  oracle hits per key (all histories): %s" % json.dumps(ORACLE_HITS, sort_keys=True))
+        shrink_violations(c)
     if not proof_ok:
         # name the rows of the regenerated error-plumbing table that break generated_errflow_ok
         bad = []
